@@ -561,7 +561,9 @@ def build_model(which, seed=3):
   fcs = [tfl.configs.FeatureConfig(name="a", lattice_size=3, monotonicity="increasing",
                                    pwl_calibration_input_keypoints=[0.0, 1.0, 2.0], default_value=-1.0),
          tfl.configs.FeatureConfig(name="b", lattice_size=2, monotonicity="decreasing",
-                                   pwl_calibration_input_keypoints=[0.0, 0.5, 2.0]),
+                                   pwl_calibration_input_keypoints=[0.0, 0.5, 2.0],
+                                   # a per-feature regularizer next to the model-level ones below
+                                   regularizer_configs=[tfl.configs.RegularizerConfig("calib_wrinkle", 0.0, 1e-3)]),
          tfl.configs.FeatureConfig(name="c", lattice_size=2, num_buckets=3, monotonicity=[(0, 1)],
                                    default_value=-1)]
   if which == "calibrated-linear":
@@ -680,6 +682,20 @@ def model_case(item, ctx=None):
   for s in steps:
     _train_step(ref, *s)
     ref_outs.append(np.asarray(ref(xin)))
+  # a model rebuilt from the trained model's config reports an equal config and, with the same
+  # weights, the same regularization losses (building must not mutate the live config objects)
+  if how == "config+weights":
+    try:
+      m2 = _restore(ref, "config+weights", which)
+      c1, c2 = norm(ref.get_config()), norm(m2.get_config())
+      if c1 != c2:
+        diff = [k for k in set(c1) | set(c2) if c1.get(k) != c2.get(k)] if isinstance(c1, dict) else "?"
+        msgs.append("rebuilt model's get_config() differs from the original's (keys %s)" % (diff,))
+      l1 = sorted(float(x) for x in ref.losses); l2 = sorted(float(x) for x in m2.losses)
+      if len(l1) != len(l2) or any(abs(a - b) > 1e-5 * max(1.0, abs(a)) for a, b in zip(l1, l2)):
+        msgs.append("regularization losses differ after rebuilding from config: %s vs %s" % (l1, l2))
+    except Exception as e:  # pylint: disable=broad-except
+      msgs.append("rebuilding the trained model from its config failed: %s: %s" % (type(e).__name__, str(e)[:200]))
   if item.get("structure"):
     # seed-derived structure is reproduced by config alone (fresh weights may differ)
     m2 = _restore(ref, "config+weights", which)
